@@ -57,8 +57,11 @@ def check_scores(run) -> set[str]:
         if s is None or e is None or name not in code["parser_names"]:
             run.spec_gap(f"melody '{name}': in spec={s is not None} emitter table={e is not None} parser names={name in code['parser_names']}")
         elif s["tempo"] != e["tempo"] or [list(map(float, n)) for n in s["notes"]] != [list(map(float, n)) for n in e["notes"]]:
-            run.spec_gap(f"melody '{name}': the specification's copy of the documented tune differs from emitter._BUZZER_MELODIES "
-                         f"(spec {json.dumps(s)} emitter {json.dumps(e)}); the tune is left out of this run")
+            # the specification states what each named tune IS (notes, lengths, tempo - Buzzer!Score); a table that plays something
+            # else under that name breaks "melody plays exactly the named tune's notes"
+            run.violation(f"melody '{name}': the firmware's score table is not the named tune (specification {json.dumps(s)[:300]} "
+                          f"emitter._BUZZER_MELODIES {json.dumps(e)[:300]}); the tune is left out of the trace runs",
+                          {"kind": "score-table", "melody": name, "spec": s, "emitter": e})
         else:
             good.add(name)
     run.cov["melodies_cross_checked"] = sorted(good)
@@ -185,6 +188,25 @@ def run_cases(cases: list[dict], run, label: str, renderings=(False, True), per_
                           {"case": case, "runtime": rt, "verdict": v, "script": src, "inputs": inputs, "trace": ev})
 
 
+def getter_argument_histories() -> list[dict]:
+    """Histories in which a frequency argument is an expression over the buzzer's OWN state queries; the expression has the
+    value of the nominal argument at the moment the call is made (Python evaluates an argument once, before the call)."""
+    def c(act, a, m="", fx=None):
+        d = {"act": act, "a": list(a), "m": m}
+        if fx:
+            d["fx"] = {str(k): v for k, v in fx.items()}
+        return d
+    H = [
+        [c("play_tone", [440000, NONE]), c("beep", [440000, 20, 10, 3], fx={0: "{n}.get_frequency()"})],
+        [c("play_tone", [220000, 20]), c("beep", [440000, 10, 10, 3], fx={0: "{n}.get_last_frequency() * 2"})],
+        [c("play_tone", [330000, NONE]), c("play_tone", [330000, 15], fx={0: "{n}.get_frequency()"}), c("beep", [330000, 5, 5, 2], fx={0: "{n}.get_last_frequency()"})],
+        [c("play_tone", [262000, 10]), c("sweep", [262000, 524000, 40, 4], fx={0: "{n}.get_last_frequency()", 1: "{n}.get_last_frequency() * 2"})],
+        [c("play_tone", [500000, NONE]), c("sweep", [500000, 250000, 30, 3], fx={0: "{n}.get_frequency()", 1: "{n}.get_frequency() / 2"}),
+         c("beep", [250000, 10, 0, 2], fx={0: "{n}.get_last_frequency()"})],
+    ]
+    return [{"dflt": 440000, "h": h} for h in H]
+
+
 def check(run) -> None:
     quick = run.tier == "quick"
     run.cov["rule"] = ("a case = one TLC-generated buzzer call history (with the buzzer's default frequency) in one rendering (literal or "
@@ -223,6 +245,7 @@ def check(run) -> None:
     clean = one + sample(two, 400 if quick else 16000, run.seed) + sample(walks, 120 if quick else 2500, run.seed)
     lap("generation (clean)")
     run_cases(clean, run, "clean")
+    run_cases(getter_argument_histories(), run, "getter-args", renderings=(False,))
     lap("firmware + trace validation (clean)")
     if not quick:      # packing is part of the binding: a seeded sample is run again one history per firmware
         run_cases(sample(clean, 150, run.seed + 1), run, "unpacked", per_pack=1)
@@ -240,6 +263,15 @@ def check(run) -> None:
 # ------------------------------------------------------------------ replay / selftest
 def replay(path: str) -> int:
     r = json.load(open(path))
+    if r.get("kind") == "score-table":
+        code = fw_buzzer.emitter_scores()["emitter"].get(r["melody"])
+        s0 = r["spec"]
+        same = code is not None and s0["tempo"] == code["tempo"] and [list(map(float, n)) for n in s0["notes"]] == [list(map(float, n)) for n in code["notes"]]
+        print(json.dumps({"melody": r["melody"], "emitter": code, "same_as_specification": same}))
+        if not same:
+            print(f"VIOLATION property=C16 replay={path}")
+            return 1
+        return 0
     case, rt = r["case"], r["runtime"]
     res = fw_buzzer.run_pack([case], rt)
     if "traces" not in res or res["traces"][0] is None:
